@@ -46,7 +46,7 @@ TEXT = {
          "the parser is a pure function: there is no schedule dimension, the claim rests on the property being stated over injected faults on the consumed text; documents use English keywords (other languages in soups only)"),
  "C11": ("exploration", "registry history machine + run-sim", "5.C11",
          "A real StepRegistry is driven through seeded registration histories (three matcher kinds, matcher switches inside and across generated step modules on disk, custom type converters with injected faults, deliberate overlaps, module re-loads) and probed with lookups built from each pattern (exact instance, wrong case, prefix/suffix, changed literal); a reference registry with the model's own anchored regexes predicts the chosen definition, every Argument (value, name, span, original) and where AmbiguousStep is required. Run-sim worlds add the end-to-end part: the shim records which definition the real Step.run dispatched with which positional/keyword arguments.",
-         "cucumber-expression matcher and re0 are not generated; an identical pattern registered twice may or may not be rejected (the statement is silent); cfparse cardinality fields (? + *) on the custom types, re-registered converters and lookups between module loads are part of the histories"),
+         "re0 is not generated (cucumber expressions only in the registry machine, with {int} {float} {word}); an identical pattern registered twice may or may not be rejected (the statement is silent); cfparse cardinality fields (? + *) on the custom types, re-registered converters and lookups between module loads are part of the histories"),
  "C06": ("exploration", "run-sim + outline histories", "5.C06",
          "Outline-dense worlds; the row scenarios of the real model after the run (count, order, name under the configured annotation schema, tags incl. examples-block tags and parametrised tags, row line, step text / doc-string / step-table after substitution) are compared with the model's own expansion of the abstract outline; histories: a hook changes an examples table through the table API (add_row / add_column) before the outline runs and the expansion must be rebuilt; a step mutates its own context.table mid-run and neither later rows nor the template may change.",
          "the expansion oracle uses sequential textual replacement of <column> by the row's cell, as the statement says; reset()+second run of a whole model is not driven"),
